@@ -868,6 +868,11 @@ func GenWide(t *rapid.T, cfg GenCfg) *Spec {
 		return n
 	}
 	sp := &Spec{Mode: mode, In: "S", Out: "M"}
+	fromKeys := mode == "workflow" && rapid.Bool().Draw(t, "fromKeys")
+	if fromKeys {
+		// map-typed input; every producer takes one field of it (streamed input chunks may lack that field)
+		sp.In = "M"
+	}
 	if mode == "chain" {
 		if width < 2 {
 			width = 2
@@ -890,7 +895,11 @@ func GenWide(t *rapid.T, cfg GenCfg) *Spec {
 			n.OutputKey = n.Key
 		}
 		sp.Nodes = append(sp.Nodes, n)
-		sp.Edges = append(sp.Edges, Edge{From: Start, To: n.Key}, e)
+		se := Edge{From: Start, To: n.Key}
+		if fromKeys {
+			se.FromKey = []string{"x", "y"}[rapid.IntRange(0, 1).Draw(t, "fromKey")]
+		}
+		sp.Edges = append(sp.Edges, se, e)
 	}
 	return sp
 }
